@@ -167,6 +167,7 @@ type Graph struct {
 	Outputs []GInput
 	Opsets  []*onnx.OperatorSetIdProto // nil = [{"", 13}]
 	IR      int64                      // ir_version; 0 = 7
+	NoNames bool                       // nodes without a name (the field is optional)
 }
 
 // ValueInfo renders a declaration.
@@ -209,7 +210,7 @@ func (g *Graph) Proto() *onnx.ModelProto {
 	}
 	for i, n := range g.Nodes {
 		name := n.Name
-		if name == "" {
+		if name == "" && !g.NoNames {
 			name = fmt.Sprintf("n%d", i)
 		}
 		gp.Node = append(gp.Node, &onnx.NodeProto{OpType: n.Op, Name: name, Input: n.Inputs, Output: n.Outputs, Attribute: n.Attrs})
